@@ -55,6 +55,7 @@ let () = iter_lines (fun line ->
         Buffer.add_string b (Printf.sprintf "ok dims %d %d M=%d v=%d h=%d ctx=%d mrg=%d ms=%d" (iz k.k_ow) (iz k.k_oh) (iz k.k_M)
           (iz k.k_vmax) (iz k.k_hmax) (if k.k_ctx then 1 else 0) (if k.k_merged then 1 else 0) ms);
         let ok = ref true in
+        let haz5 = ref false in
         if cx >= 0 then begin
           let single = nc = 1 in
           let align = crop_align single k.k_M k.k_hmax in
@@ -62,6 +63,7 @@ let () = iter_lines (fun line ->
           | CropErr -> ok := false
           | CropWhole -> Buffer.add_string b (Printf.sprintf " | crop %d %d ow=%d win" cx cw cw)
           | CropOk (x', w', fi, li) ->
+            haz5 := crop_reinit_hazard gen_DCTSIZE (zi w) zcomps k w';
             Buffer.add_string b (Printf.sprintf " | crop %d %d ow=%d win %d %d" (iz x') (iz w') (iz w') (iz fi) (iz li));
             List.iter (fun (hs, _) ->
                 let (f, l) = comp_window align x' w' (if single then zi 1 else hs) in
@@ -79,9 +81,13 @@ let () = iter_lines (fun line ->
                  if cs = [] then Buffer.add_string b "-" else Buffer.add_string b (String.concat "+" (List.map (fun c -> string_of_int (iz c)) cs))
                | Skip _ -> Buffer.add_string b (" s" ^ String.concat "+" (List.map (fun c -> string_of_int (iz c)) cs)));
               Buffer.add_string b (Printf.sprintf "@%d" (iz after));
-              List.iteri (fun i p -> provs := iz (row_of_prov g (zi (iz before + i)) p) :: !provs) rows) ops tr;
+              List.iteri (fun i p ->
+              let y = iz before + i in
+              provs := (if y >= iz k.k_oh then -1 else iz (row_of_prov g (zi y) p)) :: !provs) rows) ops tr;
           Buffer.add_string b " | prov";
           List.iter (fun p -> Buffer.add_string b (Printf.sprintf " %d" p)) (List.rev !provs);
+          let hz = if !haz5 then 5 else if k.k_ctx then 0 else iz (first_hazard g a_init ops) in
+          Buffer.add_string b (Printf.sprintf " | haz %d" hz);
           print_endline (Buffer.contents b)
         end
     end
